@@ -14,6 +14,8 @@ PID = "C16"
 INF = float("inf")
 U53 = 2.0 ** -53
 K_ESS = 256.0         # mirrors K_ess in coq/Model/C16_Resample.v (direct predicate only)
+STATE_LABEL = "state ESS = Kish's ESS of the state's own log_posterior_weights (every state class, with and without live points)"
+KNOWN_STATE_CLASSES = ["_INSIntegralState", "_NSIntegralState"]
 ONE_M = 1.0 - 2.0 ** -53      # largest float below 1: the largest value np.random.rand can return is 1 - 2^-53
 
 
@@ -123,11 +125,39 @@ def gen_cases(chk):
         c = rng.choice([1.0, -1.0, 1e5, -1e5, grid(rng, -100000, 100000, 8)])
         a = add(kind="ess", lw=lw, tag="shift-base")
         add(kind="ess", lw=[v + c for v in lw], tag=f"shift+{c:g}", pair=a, c=c)
-    # ESS of the weights of a real integral state (effective_n_posterior_samples)
+    # ESS of every integral-state class that offers effective_n_posterior_samples, in every state it can be in:
+    # _NSIntegralState during the run and after finalise; _INSIntegralState after update_evidence(nested, live)
+    # without and with live points (a running importance sampler); -inf entries; exact constant shifts
     for n0, m in ([(1, 3), (5, 30), (50, 120)] if quick else [(1, 3), (5, 30), (50, 120), (500, 1500)]):
         for mode in ("logt", "t"):
-            ls = sorted(-0.5 * rng.gauss(0, 1) ** 2 * 10 for _ in range(m))
-            add(kind="ess_state", ls=ls, ns=[n0] * (m - n0) + list(range(n0, 0, -1)), mode=mode, tag="state weights")
+            ls = sorted(grid(rng, -60, 0, 16) for _ in range(m))
+            sched = [n0] * (m - n0) + list(range(n0, 0, -1))
+            cs = rng.choice([1.0, 1e5, -1e5, grid(rng, -100000, 100000, 8)])
+            for state in ("ns", "ns_running"):
+                a = add(kind="ess_state", state=state, ls=ls, ns=sched, mode=mode, tag="state:" + state)
+                add(kind="ess_state", state=state, ls=[v + cs for v in ls], ns=sched, mode=mode, tag="state:" + state + " shift",
+                    pair=a, c=cs)
+    for n_ns, n_lp in ([(1, 0), (1, 6), (2, 1), (40, 0), (40, 15), (90, 60)] if quick else
+                       [(1, 0), (1, 6), (2, 1), (40, 0), (40, 15), (90, 60), (500, 200), (1200, 0), (1200, 800)]):
+        for where in ("live-heavy", "comparable", "nested-heavy"):
+            if n_lp == 0 and where != "comparable":
+                continue
+            loc_ns, loc_lp = {"live-heavy": (-20.0, 0.0), "comparable": (0.0, 0.5), "nested-heavy": (0.0, -20.0)}[where]
+            ns_l = [grid(rng, loc_ns - 3, loc_ns + 3, 16) for _ in range(n_ns)]
+            ns_w = [grid(rng, -8, -4, 16) for _ in range(n_ns)]
+            lp_l = [grid(rng, loc_lp - 3, loc_lp + 3, 16) for _ in range(n_lp)] if n_lp else None
+            lp_w = [grid(rng, -8, -4, 16) for _ in range(n_lp)] if n_lp else None
+            if rng.random() < 0.5 and n_ns > 1:
+                for i in rng.sample(range(n_ns), max(1, n_ns // 4)):
+                    ns_l[i] = -INF
+                if n_lp > 1:
+                    lp_l[rng.randrange(n_lp)] = -INF
+            cs = rng.choice([1.0, 250.0, -700.0, 1e5, -1e5, grid(rng, -100000, 100000, 8)])
+            tag = "state:ins " + ("nested+live" if n_lp else "nested only") + " " + where
+            a = add(kind="ess_state", state="ins", ns_logL=ns_l, ns_logW=ns_w, lp_logL=lp_l, lp_logW=lp_w, tag=tag)
+            add(kind="ess_state", state="ins", ns_logL=[v + cs for v in ns_l], ns_logW=ns_w,
+                lp_logL=None if lp_l is None else [v + cs for v in lp_l], lp_logW=lp_w, tag=tag + " shift", pair=a, c=cs)
+    add(kind="state_classes", tag="state classes")
     # weights from nlive (log_w=None path)
     for n0, m in ([(2, 6), (10, 40)] if quick else [(2, 6), (10, 40), (100, 500)]):
         ls = sorted(-0.5 * rng.gauss(0, 1) ** 2 * 5 for _ in range(m))
@@ -182,11 +212,34 @@ def direct_predicate(c, r, partner=None):
             if "error" not in pr and not abs(e - pr["ess"]) <= 2 * (t + tol_rel(pc["lw"])) * max(e, pr["ess"]):
                 bad.append(("ess:shift", f"ESS moved from {pr['ess']!r} to {e!r} under a shift of {c['c']!r}"))
     elif kind == "ess_state":
-        t = tol_rel(r["w"])
-        if not abs(r["ess"] - r["ess_fn"]) <= 2 * t * r["ess_fn"]:
-            bad.append(("ess:state-vs-function", f"effective_n_posterior_samples {r['ess']!r} vs effective_sample_size {r['ess_fn']!r}"))
-        if not (1.0 - 2 * t <= r["ess"] <= len(r["w"]) * (1 + 2 * t)):
-            bad.append(("ess:bounds", f"state ESS {r['ess']!r} outside [1, {len(r['w'])}]"))
+        w = r["w"]
+        t = tol_rel(w)
+        fin = [v for v in w if v != -INF]
+        if any(v != v or v == INF for v in w) or not fin:
+            return [("ess:state-weights", f"{r['cls']}: log_posterior_weights not usable: {w[:8]}")]
+        # Kish's ESS of the state's OWN posterior weights, recomputed here: (sum w)^2 / sum w^2
+        mx = max(fin)
+        s1 = math.fsum(math.exp(v - mx) for v in fin)
+        s2 = math.fsum(math.exp(2 * (v - mx)) for v in fin)
+        kish = s1 * s1 / s2
+        e = r["ess"]
+        if not (e == e and abs(e - kish) <= 2 * t * kish):
+            bad.append(("ess:state-not-kish", f"{r['cls']}.effective_n_posterior_samples = {e!r} but Kish's ESS of its "
+                        f"log_posterior_weights ({len(w)} samples) is {kish!r}"))
+        if not abs(e - r["ess_fn"]) <= 2 * t * max(r["ess_fn"], 1.0):
+            bad.append(("ess:state-vs-function", f"effective_n_posterior_samples {e!r} vs effective_sample_size {r['ess_fn']!r}"))
+        if not (e == e and 1.0 - 2 * t <= e <= len(w) * (1 + 2 * t)):
+            bad.append(("ess:bounds", f"{r['cls']} ESS {e!r} outside [1, {len(w)}]"))
+        if r["ess_again"] != e or not r["weights_stable"]:
+            bad.append(("ess:state-mutated", f"{r['cls']}: reading effective_n_posterior_samples / editing a returned weight "
+                        f"array changed the state (ESS {e!r} -> {r['ess_again']!r}, weights stable: {r['weights_stable']})"))
+        if partner is not None:
+            pc, pr = partner
+            if "error" not in pr and not abs(e - pr["ess"]) <= 2 * (t + tol_rel(pr["w"])) * max(e, pr["ess"]):
+                bad.append(("ess:state-shift", f"{r['cls']} ESS moved from {pr['ess']!r} to {e!r} when every log-likelihood "
+                            f"was shifted by {c['c']!r}"))
+    elif kind == "state_classes":
+        pass
     elif kind == "ess_empty":
         if r["ess"] != 0:
             bad.append(("ess:empty", f"empty state reports {r['ess']!r} effective samples"))
@@ -316,9 +369,11 @@ def coq_items(cases, res):
         ev = []
         if k in ("ess", "ess_state"):
             lw = c["lw"] if k == "ess" else r["w"]
-            if all(v == -INF for v in lw) or r["ess"] != r["ess"] or abs(r["ess"]) == INF:
+            if all(v == -INF for v in lw) or any(v != v or v == INF for v in lw) or r["ess"] != r["ess"] \
+                    or abs(r["ess"]) == INF:
                 continue
-            ev.append(("ESS within tol of the enclosure", f"check_ess P100 {cL(cdy(v) for v in lw)} {cdy1(r['ess'])}"))
+            label = "ESS within tol of the enclosure" if k == "ess" else STATE_LABEL
+            ev.append((label, f"check_ess P100 {cL(cdy(v) for v in lw)} {cdy1(r['ess'])}"))
             size = 2 * len(lw)
         elif k == "rej":
             lw, n = c["lw"], len(c["lw"])
@@ -405,7 +460,10 @@ def run(chk):
                 "(ties, also at the maximum), all equal (ESS = n: the int() boundary), range 1e-300, ratios below the smallest "
                 "float, dyadic grid, normalised; -inf entries (0%, 30%, 90%); offsets 0, +-1e5; scripted uniforms with 0, 5e-324, "
                 "1-2^-53 and values on / next to the acceptance boundary; requested n in {None, 0, 1, len, 3 len + 1}; both "
-                "multinomial method names; exact ESS shift pairs; weights of a real integral state; the nlive path. "
+                "multinomial method names; exact ESS shift pairs; effective_n_posterior_samples of every integral-state class "
+                "(_NSIntegralState during the run and after finalise, _INSIntegralState after update_evidence with and without "
+                "live points: live-heavy / comparable / nested-heavy mass, -inf entries, shifted pairs; values read twice with "
+                "the returned weight array overwritten in between); the nlive path. "
                 "non-trivial = at least two finite distinct weights; distinct by full case description")
     chk.assumptions += [
         "oracle: np.random.rand returns independent uniforms in [0, 1); validated by exact binomial bounds on selection counts "
@@ -432,6 +490,14 @@ def run(chk):
         chk.count("kind:" + c["kind"])
         chk.count("tag:" + c["tag"].split("/")[0].split("+")[0])
         lw = c.get("lw", [])
+        if c["kind"] == "ess_state":
+            lw = r.get("w", [])
+            chk.count("state ESS: " + c["state"] + (" with live points" if c.get("lp_logL") else ""))
+        if c["kind"] == "state_classes":
+            got = r.get("classes")
+            chk.oblige("coverage: every concrete state class of nessai.evidence offering effective_n_posterior_samples is "
+                       f"exercised ({', '.join(KNOWN_STATE_CLASSES)})", "coverage", got == KNOWN_STATE_CLASSES,
+                       f"classes found: {got}")
         if any(v == -INF for v in lw):
             chk.count("has -inf")
         fin = [v for v in lw if v != -INF]
@@ -467,7 +533,7 @@ def run(chk):
             per[label] = per.get(label, 0) + 1
             if not ok:
                 badc.setdefault(label, []).append((i, det))
-    labels = ["ESS within tol of the enclosure",
+    labels = ["ESS within tol of the enclosure", STATE_LABEL,
               "rejection: indices increasing, in range, samples = samples[indices]",
               "rejection: every decision agrees with log_w - max > log u",
               "multinomial: samples = samples[indices], indices in range",
